@@ -1,7 +1,7 @@
 #!/bin/bash
 # usage: tools/try_patch.sh <patch.diff> <PID> [PID...]   -- applies the patch to /repo's working tree, runs the quick
 # checks, and always restores the tree.  Prints one line per check: PID exit-code.
-patch="$1"; shift
+patch="$(realpath "$1")"; shift
 cd /repo || exit 9
 if ! git diff --quiet; then echo "/repo working tree is dirty"; exit 9; fi
 git apply "$patch" || { echo "patch does not apply"; exit 9; }
